@@ -3,7 +3,10 @@ package stream
 import (
 	"context"
 	"errors"
+	"runtime"
 	"sync"
+	"sync/atomic"
+	"time"
 )
 
 //verif:pkg ./stream
@@ -273,4 +276,116 @@ func VerifPipeExpiredNext(buf int, polls int) {
 	}
 	recv.Close()
 	vCover("pipe-expired-next")
+}
+
+var vHammeredTrySend int
+
+// vHammerTrySend (native replay only): rounds of 8 TrySends released together on a pipe with one
+// free slot; reports whether a TrySend ever failed to return.
+func vHammerTrySend() bool {
+	if vHammeredTrySend >= 3 {
+		return false
+	}
+	vHammeredTrySend++
+	for round := 0; round < 4000; round++ {
+		sender, recv := Pipe[int](1)
+		var gate, returned int32
+		const n = 8
+		for i := 0; i < n; i++ {
+			go func() {
+				for atomic.LoadInt32(&gate) == 0 {
+				}
+				sender.TrySend(context.Background(), 1)
+				atomic.AddInt32(&returned, 1)
+			}()
+		}
+		atomic.StoreInt32(&gate, 1)
+		deadline := time.Now().Add(200 * time.Millisecond)
+		for atomic.LoadInt32(&returned) < n && time.Now().Before(deadline) {
+			runtime.Gosched()
+		}
+		stuck := atomic.LoadInt32(&returned) < n
+		recv.Close() // releases a parked Send
+		if stuck {
+			return true
+		}
+	}
+	return false
+}
+
+// VerifPipeTrySendConcurrent: TrySend never blocks and accepts exactly as many values as there is
+// room for, also when several goroutines try at the same moment.
+// args: buffer size, concurrent TrySends
+//verif:case C10 quick VerifPipeTrySendConcurrent 0..2 2
+//verif:case C10 thorough VerifPipeTrySendConcurrent 1..2 3
+func VerifPipeTrySendConcurrent(buf int, senders int) {
+	sender, recv := Pipe[int](buf)
+	ctx := context.Background()
+	returned, accepted, failed := 0, 0, 0
+	for s := 0; s < senders; s++ {
+		s := s
+		go func() {
+			ok, err := sender.TrySend(ctx, s)
+			vAtomic(func() {
+				returned++
+				if ok {
+					accepted++
+				}
+				if err != nil {
+					failed++
+				}
+			})
+		}()
+	}
+	vQuiesce()
+	vAssert(returned == senders, "trysend/never-blocks")
+	if vNative() {
+		vAssert(!vHammerTrySend(), "trysend/never-blocks")
+	}
+	want := buf
+	if senders < buf {
+		want = senders
+	}
+	vAssert(failed == 0, "trysend/no-error")
+	vAssert(accepted == want, "trysend/true-iff-room")
+	for i := 0; i < accepted; i++ {
+		_, err := recv.Next(ctx)
+		vAssert(err == nil, "trysend/accepted-values-arrive-in-order")
+	}
+	recv.Close()
+	vCover("pipe-trysend-concurrent")
+}
+
+// VerifPipeErrorSticky: once Next has reported the sender's close (End or its error), it keeps
+// reporting it, also if a Send that lost the race with Close still slipped a value into the buffer
+// afterwards (such a Send may return nil; its value is dropped).
+// args: buffer size (>= 1), close with an error (0/1)
+//verif:case C10 quick VerifPipeErrorSticky 1..2 0..1
+func VerifPipeErrorSticky(buf int, withErr int) {
+	sender, recv := Pipe[int](buf)
+	ctx := context.Background()
+	var E error
+	want := End
+	if withErr == 1 {
+		E = errors.New("close error")
+		want = E
+	}
+	sender.Close(E)
+	_, err := recv.Next(ctx)
+	vAssert(err == want, "pipe/next-reports-the-close")
+	tries := 2
+	if vNative() {
+		tries = 60 // natively the select inside Send picks at random: try until a value slips in
+	}
+	for i := 0; i < tries; i++ {
+		if sender.Send(ctx, 7) == nil {
+			break
+		}
+	}
+	_, err = recv.Next(ctx)
+	vAssert(err == want, "pipe/end-is-sticky-once-no-send-is-in-flight")
+	_, err = recv.Next(ctx)
+	vAssert(err == want, "pipe/end-is-sticky-once-no-send-is-in-flight")
+	recv.Close()
+	vCover("pipe-error-sticky")
 }
